@@ -18,7 +18,7 @@ def is_noise(t):
 
 
 LOG_MACROS = {"debug", "trace", "info", "warn", "error", "event", "span", "debug_span", "trace_span",
-              "info_span", "warn_span", "error_span", "log", "enabled"}
+              "info_span", "warn_span", "error_span", "log", "enabled", "instrument"}
 
 
 def is_logging(t):
